@@ -77,6 +77,7 @@ type c20Params struct {
 	emptyPct  int           // share of get-entries answers that are `{"entries":[]}` (at most two in a row per request)
 	quotaPct  int           // share of AddSequencedLeaves answers that are ResourceExhausted (runs of up to 3)
 	fatalAt   int           // the n-th AddSequencedLeaves call fails with a non-quota error (0 = never)
+	fatalCode int           // which one: 0 = by hash, 1 Internal, 2 transport error, 3 Canceled, 4 DeadlineExceeded (reply codes, the pass context is alive)
 	cancelAt  time.Duration
 	stopAfter time.Duration
 	lossAt    []time.Duration // mastership lost at these instants (mode "master")
@@ -444,8 +445,18 @@ func (w *c20World) addLeaves(req *trillian.AddSequencedLeavesRequest) (*trillian
 	if w.p.fatalAt > 0 && nCall == w.p.fatalAt {
 		w.disturbed = true
 		w.out.T(fmt.Sprintf("addret %d %d fatal", start, k), "ok")
-		if h&1 == 0 {
+		kind := w.p.fatalCode
+		if kind == 0 {
+			kind = 1 + int(h>>3)%4
+		}
+		switch kind {
+		case 1:
 			return nil, status.Error(codes.Internal, "verif: scripted fatal error")
+		case 3:
+			// the DESTINATION answers Canceled / DeadlineExceeded (a proxy gave up, its own deadline passed); the migrator's context is alive
+			return nil, status.Error(codes.Canceled, "verif: destination cancelled the request")
+		case 4:
+			return nil, status.Error(codes.DeadlineExceeded, "verif: destination deadline exceeded")
 		}
 		return nil, errors.New("verif: scripted transport error")
 	}
@@ -894,6 +905,9 @@ func c20Gen(r *verifkit.Rand, it int) *c20Params {
 		p.mode = "master"
 		if r.Bool() {
 			p.lossAt = []time.Duration{time.Duration(1+r.Intn(3000)) * time.Millisecond}
+			if r.Bool() {
+				p.addDelay = time.Duration(1+r.Intn(3)) * time.Second // the pass is still under way when mastership goes
+			}
 		}
 	}
 	return p
@@ -913,6 +927,13 @@ func TestVerifC20(t *testing.T) {
 		// a submitter fails long after the fetcher has finished: the pass must still report the failure
 		{id: "w0", mode: "run", proofMode: "ok", cfgStart: -1, size0: 8, batch: 4, fetchers: 1, submit: 1, chanSize: 10, idFunc: li, seed: 16, fatalAt: 2, addDelay: 20 * time.Second},
 		{id: "w1", mode: "run", proofMode: "ok", cfgStart: -1, size0: 40, batch: 5, fetchers: 3, submit: 2, chanSize: 10, idFunc: li, seed: 17, fatalAt: 7, addDelay: 30 * time.Second},
+		// the destination answers one batch with Canceled / DeadlineExceeded while the pass is alive: a fatal error like any other
+		{id: "k0", mode: "run", proofMode: "ok", cfgStart: -1, size0: 30, batch: 5, fetchers: 1, submit: 2, chanSize: 10, idFunc: li, seed: 18, fatalAt: 2, fatalCode: 3},
+		{id: "k1", mode: "run", proofMode: "ok", cfgStart: -1, size0: 12, batch: 4, fetchers: 1, submit: 1, idFunc: li, seed: 19, fatalAt: 3, fatalCode: 3},
+		{id: "k2", mode: "run", proofMode: "ok", cfgStart: -1, cont: true, size0: 20, batch: 5, fetchers: 2, submit: 3, chanSize: 10, idFunc: li, seed: 20, fatalAt: 2, fatalCode: 4, stopAfter: 10 * time.Minute},
+		// one-shot migration under election: mastership is revoked after the first batch and before the last, then granted again
+		{id: "m0", mode: "master", proofMode: "ok", cfgStart: -1, size0: 60, batch: 5, fetchers: 1, submit: 1, idFunc: li, seed: 21, addDelay: 2 * time.Second, lossAt: []time.Duration{7 * time.Second}},
+		{id: "m1", mode: "master", proofMode: "ok", cfgStart: 0, size0: 40, dest0: 10, batch: 4, fetchers: 2, submit: 2, idFunc: li, seed: 22, addDelay: 3 * time.Second, lossAt: []time.Duration{5 * time.Second, 9 * time.Second}},
 		{id: "f2", mode: "run", proofMode: "ok", cfgStart: -1, size0: 57, dest0: 20, batch: 7, fetchers: 3, submit: 2, idFunc: li, seed: 3, shortPct: 100, errPct: 10},
 		{id: "f3", mode: "run", proofMode: "ok", cfgStart: -1, size0: 57, dest0: 57, batch: 7, fetchers: 1, submit: 1, idFunc: li, seed: 4},
 		{id: "f4", unique: true, mode: "run", proofMode: "ok", cfgStart: -1, size0: 40, dest0: 10, fork: true, batch: 7, fetchers: 1, submit: 1, idFunc: cd, seed: 5},
